@@ -438,13 +438,19 @@ pub fn case_behaviour(name: Option<&str>, network: Option<&str>, motd: Option<&s
     }
     // max_joins enforced
     if let Some(mj) = max_joins {
-        for k in 0..=mj {
+        // max_joins - 1 single JOINs, then one JOIN naming two channels: the quota is
+        // crossed inside the list
+        for k in 0..mj.saturating_sub(1) {
             m!(w.send(0, &format!("JOIN #j{}", k)));
         }
+        m!(w.send(0, &format!("JOIN #j{},#j{}", mj.saturating_sub(1), mj)));
+        // and one more at the quota
+        m!(w.send(0, "JOIN #jextra"));
         let ls = w.take_lines(0);
         let joined = ls.iter().filter(|l| l.contains(" JOIN #j")).count();
-        if joined != mj || !ls.iter().any(|l| l.contains(" 405 ")) {
-            out.push(finding("behaviour:max_joins", format!("max_joins={}: {} joins succeeded, 405 seen: {}", mj, joined, ls.iter().any(|l| l.contains(" 405 ")))));
+        let refused = ls.iter().filter(|l| l.contains(" 405 ")).count();
+        if joined != mj || refused < 2 {
+            out.push(finding("behaviour:max_joins", format!("max_joins={}: {} joins succeeded, {} refused with 405 (expected {} and at least 2)", mj, joined, refused, mj)));
         }
     }
     if w.conns.iter().any(|c| matches!(c.life, Life::Panicked(_))) {
@@ -670,13 +676,16 @@ pub fn plan(quick: bool) -> Plan {
 fn plan_base() -> Plan {
     Plan {
         property: "C20".into(),
-        rule: "(a) the full product of per-field menus of a configuration file (name dotted/undotted; password absent/valid/bad base64/wrong length; user none/valid/valid without password/name with channel sigil/nick with dot/201-char nick/5-char password/bad hash; operator none/valid/bad name/bad hash; channel none/valid/no sigil/comma; [tls] absent/both/one key) x 11 command-line variants = 33 792 configurations through Cli::try_parse_from + MainConfig::new: accepted iff every field is valid (the effective name after -n counts, -C and -K only together), CLI overrides win; (b) each leaf key documented in config-example.toml is removed in turn: the parsed configuration must change (the key is live) or be rejected (it is required); (c) 20x20 password pairs: verify(q, hash(p)) iff p = q, every generated hash passes validation; (d) 288 valid configurations on the wire: welcome burst (001, 002, 004, 005 NETWORK/CHANLIMIT, 372, 375, 221) reflects name/network/MOTD/max_joins/default modes, default modes take effect, max_joins is enforced, the server password is the one that was hashed".into(),
-        assumptions: vec!["process exit on an invalid configuration is MainConfig::new returning Err (main() propagates it with `?` before run_server)".into(), "TLS transport equality is not checked in this round (see DESIGN.md)".into()],
+        rule: "(a) the full product of per-field menus of a configuration file (name dotted/undotted; password absent/valid/bad base64/wrong length; user none/valid/valid without password/name with channel sigil/nick with dot/201-char nick/5-char password/bad hash; operator none/valid/bad name/bad hash; channel none/valid/no sigil/comma; [tls] absent/both/one key) x 11 command-line variants = 33 792 configurations through Cli::try_parse_from + MainConfig::new: accepted iff every field is valid (the effective name after -n counts, -C and -K only together), CLI overrides win; (b) each leaf key documented in config-example.toml is removed in turn: the parsed configuration must change (the key is live) or be rejected (it is required); (c) 20x20 password pairs: verify(q, hash(p)) iff p = q, every generated hash passes validation; (d) 288 valid configurations on the wire: welcome burst (001, 002, 004, 005 NETWORK/CHANLIMIT, 372, 375, 221) reflects name/network/MOTD/max_joins/default modes, default modes take effect, max_joins is enforced, the server password is the one that was hashed; (d') max_connections = 2 governs the number of served connections (E-SEQ slot scenario shared with C19)".into(),
+        assumptions: vec!["process exit on an invalid configuration is MainConfig::new returning Err (main() propagates it with `?` before run_server)".into(), "TLS transport equality and process-level start-up are checked in the thorough tier only (they need two builds of the production binary)".into()],
         parts: vec![
             Part::Custom("fun:c20-validation".into(), Box::new(part_lattice)),
             Part::Custom("fun:c20-example".into(), Box::new(part_example)),
             Part::Custom("fun:c20-hash".into(), Box::new(part_hash)),
             Part::Custom("fun:c20-behaviour".into(), Box::new(part_behaviour)),
+            // max_connections is a documented setting too: the slot scenario of C19 (every pattern of
+            // opening, refusing and closing connections under max_connections = 2)
+            Part::Bfs(Box::new(super::life::Slots { max: 2, with_password: false }), super::lim(7, 2_000_000, 10.0)),
         ],
     }
 }
